@@ -588,6 +588,10 @@ class Rewriter:
         iter_ty = body['locals'][cur]
         if iter_ty.startswith('&'):
             raise Bail('iterator held by reference')
+        if not re.match(r'^(core|alloc|std|soroban_sdk|alloy_\w+|ruint)::', iter_ty):
+            # a hand-written iterator: its `next()` is workspace code, not a library leaf - leave the original call alone (it is reported
+            # as an opaque effect by the leaf model)
+            raise Bail('not a library iterator: %s' % iter_ty[:60])
         nx = _next_callee(self.insts, iter_ty)
         opt_ty = 'core::option::Option<%s>' % elem_ty
         l_ref = self.newlocal('&mut ' + iter_ty)
